@@ -3,7 +3,9 @@
 # quick checks without touching evidence, undo the change.  Never commits to /repo.
 set -u
 seed=$1; shift
-cd /repo || exit 2
+REPO="${VF_REPO:-/repo}"
+VERIF="$(cd "$(dirname "$0")/.." && pwd)"
+cd "$REPO" || exit 2
 if [ -n "$(git status --porcelain --untracked-files=no)" ]; then echo "repo dirty"; exit 2; fi
 if ! git apply --check "$seed/patch.diff" 2>/dev/null; then
   if ! patch -p1 --dry-run -s < "$seed/patch.diff" >/dev/null 2>&1; then echo "PATCH-DOES-NOT-APPLY $seed"; exit 2; fi
@@ -11,11 +13,11 @@ if ! git apply --check "$seed/patch.diff" 2>/dev/null; then
 else
   git apply "$seed/patch.diff"
 fi
-trap 'cd /repo && git checkout -- . && find . -name "*.orig" -delete' EXIT
+trap 'cd "$REPO" && git checkout -- . && find . -name "*.orig" -delete' EXIT
 t=$(/venv/bin/python -m pytest -q -p no:cacheprovider 2>&1 | tail -1)
 echo "tests: $t"
-if [ -f "$seed/demo.py" ]; then (cd /repo && PYTHONPATH=/repo /venv/bin/python "$seed/demo.py" >/dev/null 2>&1; echo "demo exit (with change): $?"); fi
-cd /verif
+if [ -f "$seed/demo.py" ]; then (cd "$REPO" && PYTHONPATH="$REPO" /venv/bin/python "$seed/demo.py" >/dev/null 2>&1; echo "demo exit (with change): $?"); fi
+cd "$VERIF"
 for p in "$@"; do
   out=$(./check "$p" --tier quick --no-evidence ${VF_ONLY:+--only "$VF_ONLY"} 2>&1)
   rc=$?
